@@ -625,7 +625,7 @@ func (f *Frame) builtin(x *ssa.Call, b *ssa.Builtin, args []AV) AV {
 		if ok1 && ok2 {
 			f.assume(atomLE(affSym(n), dst.ln), atomLE(affSym(n), src.ln))
 			if !dst.isNil {
-				dst.root.writes = append(dst.root.writes, &Write{off: dst.off, width: dst.ln, kind: wCopy, val: src, pos: f.posStr(x.Pos()), state: f.cur, fn: f.fn})
+				dst.root.addWrite(&Write{off: dst.off, width: dst.ln, kind: wCopy, val: src, pos: f.posStr(x.Pos()), state: f.cur, fn: f.fn})
 			}
 		}
 		return AInt{a: affSym(n)}
@@ -788,7 +788,7 @@ func (f *Frame) knownExternal(x *ssa.Call, callee *ssa.Function, args []AV, key 
 		if !be {
 			k = wLEn
 		}
-		s.root.writes = append(s.root.writes, &Write{off: s.off, width: affConst(int64(n)), kind: k, n: n, val: args[2], pos: f.posStr(x.Pos()), state: f.cur, fn: f.fn})
+		s.root.addWrite(&Write{off: s.off, width: affConst(int64(n)), kind: k, n: n, val: args[2], pos: f.posStr(x.Pos()), state: f.cur, fn: f.fn})
 		return ATuple{}, true
 	}
 	if s.root.fresh && n <= 4 {
